@@ -1,0 +1,71 @@
+//go:build verif
+
+// Copyright (c) 2026 Tigera, Inc. All rights reserved.
+//
+// Licensed under the Apache License, Version 2.0 (the "License");
+// you may not use this file except in compliance with the License.
+// You may obtain a copy of the License at
+//
+//     http://www.apache.org/licenses/LICENSE-2.0
+//
+// Unless required by applicable law or agreed to in writing, software
+// distributed under the License is distributed on an "AS IS" BASIS,
+// WITHOUT WARRANTIES OR CONDITIONS OF ANY KIND, either express or implied.
+// See the License for the specific language governing permissions and
+// limitations under the License.
+
+package intdataplane
+
+import (
+	dpsets "github.com/projectcalico/calico/felix/dataplane/ipsets"
+	"github.com/projectcalico/calico/felix/netlinkshim"
+	"github.com/projectcalico/calico/felix/routetable"
+	"github.com/projectcalico/calico/lib/logrusr"
+)
+
+// VerifRouteManager is the part of the cluster-route managers (vxlanManager, ipipManager,
+// noEncapManager) that the internal dataplane's main loop drives.
+type VerifRouteManager interface {
+	OnUpdate(protoBufMsg any)
+	CompleteDeferredWork() error
+}
+
+// VerifNewVXLANManager builds the real vxlanManager with the caller's route table, FDB, IP sets
+// and netlink shims (the same constructor the unit tests use).
+func VerifNewVXLANManager(
+	ipsetsDataplane dpsets.IPSetsDataplane,
+	routeTable routetable.Interface,
+	fdb VXLANFDB,
+	deviceName string,
+	ipVersion uint8,
+	mtu int,
+	dpConfig Config,
+	nlHandle netlinkshim.Interface,
+) VerifRouteManager {
+	return newVXLANManagerWithShims(ipsetsDataplane, routeTable, fdb, deviceName, ipVersion, mtu, dpConfig,
+		logrusr.NewSummarizer("verif"), nlHandle)
+}
+
+// VerifNewIPIPManager builds the real ipipManager (IPv4 only) with the caller's shims.
+func VerifNewIPIPManager(
+	routeTable routetable.Interface,
+	tunnelDevice string,
+	ipVersion uint8,
+	mtu int,
+	dpConfig Config,
+	nlHandle netlinkshim.Interface,
+) VerifRouteManager {
+	return newIPIPManagerWithShims(routeTable, tunnelDevice, ipVersion, mtu, dpConfig,
+		logrusr.NewSummarizer("verif"), nlHandle)
+}
+
+// VerifNewNoEncapManager builds the real noEncapManager with the caller's shims.
+func VerifNewNoEncapManager(
+	routeTable routetable.Interface,
+	ipVersion uint8,
+	dpConfig Config,
+	nlHandle netlinkshim.Interface,
+) VerifRouteManager {
+	return newNoEncapManagerWithSims(routeTable, ipVersion, dpConfig,
+		logrusr.NewSummarizer("verif"), nlHandle)
+}
